@@ -91,6 +91,10 @@ def letters(pal):
         "CVq": ("Converter", dict(vo=_r(3.3 * kv), eff=_r(0.9 + de), iq=_r(8e-3 * ki))),
         "ILu": ("ILoad", dict(ii=_r(1e-3 * ki))),
         "ILn": ("ILoad", dict(ii=5e-9)),   # a live nano-amp load (below numpy's default absolute tolerance)
+        # voltage-drop TABLES written with negative values (magnitudes, like every other drop): 1-D, planar 2-D, diode bridge
+        "VLm": ("VLoss", dict(vdrop={"vi": [V], "io": io3, "vdrop": [[_r(-0.12 * kd), _r(-0.2 * kd), _r(-0.33 * kd)]]}, rt=1.0)),
+        "VLm2": ("VLoss", dict(vdrop={"vi": vi2, "io": io3z, "vdrop": [[-x for x in row] for row in planar(0.07 * kd, 0.21 * kd, 0.04 * kd)]})),
+        "RDm": ("Rectifier", dict(vdrop={"vi": [V], "io": io3, "vdrop": [[_r(-0.2 * kd), _r(-0.26 * kd), _r(-0.35 * kd)]]})),
     })
     return L
 
@@ -100,6 +104,7 @@ SIG_FULL = (["RL", "VLc", "VL1", "VL2", "CVc", "CV1", "CV2", "CVb", "CVi", "LRc"
              "RDc", "RD1", "RMc", "RM1", "MX"], ["PL", "PLx", "IL", "ILx", "RO", "ROx"])
 SIG_MID = (["RL", "VL1", "CVc", "CV2", "LRc", "LRd", "PSc", "RDc", "RMc", "MX"], ["PL", "ILx", "RO"])
 SIG_DEEP = (["RL", "CVc", "PSc", "LRc"], ["PL", "IL"])
+SIG_NEGTAB = (["VLm", "VLm2", "RDm", "RL", "CVc"], ["IL", "PL"])
 
 
 def mirror_args(kind, args, pol):
@@ -371,7 +376,7 @@ def par(p, io, vi):
         y = clamp(abs(vi), p["vi"][0], p["vi"][-1])
         x0, x1 = p["io"][0], p["io"][-1]
         y0, y1 = p["vi"][0], p["vi"][-1]
-        f00, f10, f01 = p[z][0][0], p[z][0][-1], p[z][-1][0]
+        f00, f10, f01 = abs(p[z][0][0]), abs(p[z][0][-1]), abs(p[z][-1][0])   # tabulated values are magnitudes
         return f00 + (f10 - f00) * (x - x0) / (x1 - x0) + (f01 - f00) * (y - y0) / (y1 - y0)
     return abs(p)
 
@@ -610,3 +615,35 @@ def move_leaf(s, spec, leaf, newparent):
     lc["p"] = [newparent]
     sp["comps"] = [c for c in sp["comps"] if c["n"] != leaf] + [lc]
     return sp
+
+
+
+def rejected_edits(s, spec):
+    """Issue, on the live system, a menu of edits that the documented rules refuse (each wrapped: the caller carries on, as a user would).
+    Returns the number of calls that were (unexpectedly) accepted; the structure described by `spec` must still be the one analysed."""
+    from sysloss.components import PLoad, Source, RLoss
+    d = resolve(spec)
+    accepted = 0
+    calls = []
+    for n, rec in d.items():
+        if rec["children"]:
+            calls.append(lambda n=n: s.change_comp(n, comp=PLoad(n, pwr=0.5)))          # a load cannot have children
+        if rec["k"] != "Source":
+            calls.append(lambda n=n: s.change_comp(n, comp=Source(n, vo=1.0)))          # only a source can become a source
+            calls.append(lambda n=n: s.add_source(Source(n, vo=2.0)))                   # name in use
+        else:
+            calls.append(lambda n=n: s.change_comp(n, comp=RLoss(n, rs=1.0)))           # a source stays a source
+        if rec["k"] in LOADS:
+            calls.append(lambda n=n: s.add_comp(n, comp=RLoss("zz_" + n, rs=1.0)))      # loads feed nothing
+        calls.append(lambda n=n: s.add_comp(n if rec["k"] not in LOADS else spec["comps"][0]["n"], comp=RLoss(n, rs=1.0)))   # name in use
+        calls.append(lambda n=n: s.set_comp_phases(n, 5))                               # neither dict nor list
+    calls.append(lambda: s.del_comp("no such component"))
+    calls.append(lambda: s.add_comp("no such parent", comp=RLoss("zz_orphan", rs=1.0)))
+    calls.append(lambda: s.set_sys_phases({"only": 1.0}))
+    for c in calls:
+        try:
+            c()
+            accepted += 1
+        except Exception:
+            pass
+    return accepted
